@@ -32,6 +32,15 @@ mod wire;
 #[cfg(test)]
 mod tests;
 
+#[cfg(bmwill_anemo_verif)]
+pub(crate) mod verif_exports {
+    pub(crate) use super::connection_manager::ActivePeers;
+    pub(crate) use super::wire::{
+        handshake, network_message_frame_codec, read_request, read_response, read_version_frame,
+        write_request, write_response, write_version_frame,
+    };
+}
+
 type OutboundRequestLayer = BoxLayer<
     BoxService<Request<Bytes>, Response<Bytes>, crate::Error>,
     Request<Bytes>,
